@@ -581,7 +581,7 @@ func (l *Line) IPArray(name string, value []net.IP) *Line {
 	}
 
 	for _, v := range value {
-		if l.index+28+2 > cap(l.buffer) { // assume longest IP len 4*8+4
+		if l.index+39+2 > cap(l.buffer) { // assume longest IP len 4*8+7
 			break
 		}
 		if v != nil {
